@@ -47,6 +47,10 @@ CLAIMED = {
          "One TableTablets::add_tablet step from an ARBITRARY invariant-satisfying pre-state of N tablets (N <= 4 quick, <= 6 thorough; all bounds symbolic i64) followed by tablet_for_token on an arbitrary token: list stays sorted/disjoint, exactly the overlapped tablets disappear, lookup = newest covering tablet or nothing (never stale).",
          "Vec/slice operations are modelled as sequence operations (partition_point on partitioned slices, drain, insert, get). TabletsInfo (hash map per table), perform_maintenance, per-DC restriction and RawTablet::from_custom_payload validation are NOT decided.",
          S + " (+ one Kani cross-check on the empty list)"),
+ "C17": ("DESIGN.md §5 C17",
+         "Type-check matrix: for each of 19 native carriers (integers, floats, bool, Counter, date/time/timestamp, uuid/timeuuid, inet, String, blob, varint, decimal, duration) the column type ranges symbolically over all 20 native CQL types: serialization succeeds and type_check passes iff the documented mapping allows the pair, and a refused value writes no byte; container carriers (Vec, BTreeSet, BTreeMap, tuple - empty ones included) are refused by every native column. Rollback: after a failing add_value (top-level mismatch; thorough: nested tuple failure after a partial write) SerializedValues is byte-for-byte and count-for-count unchanged, the count equals the number of encoded cells, and the object stays usable.",
+         "Column types are natives (non-native columns against native carriers and two-level container mismatches are not in the quick tier); the too-many-values failure kind needs 65535 prior cells and is outside; error-path stubs as in C01 (ColumnType::clone, Arc::drop_slow).",
+         K),
  "C18": ("DESIGN.md §5 C18",
          "Thread-modular (rely/guarantee) step obligation on the real next_timestamp/compute_next: with up to R interfering successful CAS updates by other threads and an arbitrary clock reading injected between load and compare_exchange, the returned timestamp exceeds every timestamp handed out before and `last` equals it.",
          "Kani atomics are sequentially consistent; rely: other threads only CAS `last` upwards. last >= i64::MAX-8 excluded. 'Explicit statement timestamp wins' lives in async Connection code and is NOT decided.",
